@@ -83,7 +83,7 @@ def make_worlds(numpy, regions, quick, rng):
     boxes4 = {q: tuple(float(x) for x in qt.bounds[q]) for q in range(qt.num_nodes)}
     worlds.append(World('quadtree-z2/bound 4,5,6', qt, boxes4, [(10.0, 88.0), (-100.0, -89.0)], mags_b, True,
                         cells={1: 5, 2: 12}, bins={1: 1, 2: 2}, quad=True))
-    if not quick:
+    if True:      # (explicit magnitude grid on a quadtree region without bound magnitudes: found a defect in the thorough tier)
         qt3 = QuadtreeGrid2D.from_single_resolution(3)
         boxes5 = {q: tuple(float(x) for x in qt3.bounds[q]) for q in range(qt3.num_nodes)}
         worlds.append(World('quadtree-z3/explicit 5.95:8.95', qt3, boxes5, [(0.0, 86.0)], mags_a, False,
